@@ -43,15 +43,16 @@ Theorem C19_CorrelationRemover_width_latch :
 Proof. exact c_width_latch. Qed.
 Print Assumptions C19_CorrelationRemover_width_latch.
 
-(* warm_start = False *)
+(* warm_start = False and predictor / adversary given as LISTS of layer sizes (user_net p = None).
+   FULL statement (no premise on user_net) is false of the code: see C19_Adversarial_user_module_refuted *)
 Theorem C19_history_independent_Adversarial :
-  forall (P D M : Type) (ws : P -> bool) (init_net : P -> D -> M) (train_from : P -> M -> D -> M)
-         (p : P) (h : list (op D)) (d : D),
-    ws p = false ->
-    after (adv_step ws init_net train_from) (a_init p) h (Fit d)
-      = mkObs true p (Some (train_from p (init_net p d) d)) None /\
-    after (adv_step ws init_net train_from) (a_init p) h (Fit d)
-      = after (adv_step ws init_net train_from) (a_init p) [] (Fit d).
+  forall (P D M : Type) (ws : P -> bool) (user_net : P -> option M) (init_net : P -> D -> M)
+         (train_from : P -> M -> D -> M) (p : P) (h : list (op D)) (d : D),
+    ws p = false -> user_net p = None ->
+    after (adv_step ws init_net train_from) (a_init user_net p) h (Fit d)
+      = mkObs true (p, None) (Some (train_from p (init_net p d) d)) None /\
+    after (adv_step ws init_net train_from) (a_init user_net p) h (Fit d)
+      = after (adv_step ws init_net train_from) (a_init user_net p) [] (Fit d).
 Proof. exact a_history_independent. Qed.
 Print Assumptions C19_history_independent_Adversarial.
 
@@ -60,10 +61,23 @@ Theorem C19_Adversarial_warm_start_continues :
   forall (P D M : Type) (ws : P -> bool) (init_net : P -> D -> M) (train_from : P -> M -> D -> M)
          (s : ast P M) (m : M) (d : D),
     ws (a_par s) = true -> a_net s = Some m -> a_classes s = true ->
-    snd (adv_step ws init_net train_from s (Fit d))
-      = mkObs true (a_par s) (Some (train_from (a_par s) m d)) None.
+    o_model (snd (adv_step ws init_net train_from s (Fit d))) = Some (train_from (a_par s) m d) /\
+    o_self (snd (adv_step ws init_net train_from s (Fit d))) = true /\
+    o_exc (snd (adv_step ws init_net train_from s (Fit d))) = None.
 Proof. exact a_warm_start_continues. Qed.
 Print Assumptions C19_Adversarial_warm_start_continues.
+
+(* networks given as torch.nn.Module objects: BackendEngine.__init_model__ uses the parameter object
+   itself, fit trains it in place -> get_params changes, a refit continues from the trained weights,
+   a clone made after a fit is pre-trained *)
+Theorem C19_Adversarial_user_module_refuted :
+  let step := adv_step sym_ws sym_init_net sym_train_from in
+  let s0 := a_init sym_user_net (0, (false, true)) in
+  o_params (after step s0 [] (Fit 1)) <> a_params s0 /\
+  o_model (after step s0 [Fit 1] (Fit 2)) <> o_model (after step s0 [] (Fit 2)) /\
+  o_model (after step s0 [Fit 1; Clone] (Fit 2)) <> o_model (after step s0 [] (Fit 2)).
+Proof. exact a_user_module_refuted. Qed.
+Print Assumptions C19_Adversarial_user_module_refuted.
 
 (* ExponentiatedGradient.  FULL statement (false of the code, see C19_nu_overwritten_refuted):
      forall p nu h d, after step (e_init p nu) h (Fit d) = after step (e_init p nu) [] (Fit d)
@@ -151,9 +165,11 @@ Proof. exact c_params_constant_quiet. Qed.
 Print Assumptions C19_params_constant_CorrelationRemover.
 
 Theorem C19_params_constant_Adversarial :
-  forall (P D M : Type) (ws : P -> bool) (init_net : P -> D -> M) (train_from : P -> M -> D -> M)
-         (p : P) (h : list (op D)),
-    Forall (fun o => o_params o = p /\ quiet o) (trace (adv_step ws init_net train_from) (a_init p) h).
+  forall (P D M : Type) (ws : P -> bool) (user_net : P -> option M) (init_net : P -> D -> M)
+         (train_from : P -> M -> D -> M) (p : P) (h : list (op D)),
+    user_net p = None ->
+    Forall (fun o => o_params o = (p, None) /\ quiet o)
+           (trace (adv_step ws init_net train_from) (a_init user_net p) h).
 Proof. exact a_params_constant. Qed.
 Print Assumptions C19_params_constant_Adversarial.
 
@@ -212,9 +228,13 @@ Theorem C19_clone_fresh :
     (forall (width : D -> Z) (train : P -> D -> M) s,
         fst (c_step width train s Clone) = c_init (c_par s) /\
         snd (c_step width train s Clone) = mkObs true (c_par s) None None) /\
-    (forall (ws : P -> bool) (init_net : P -> D -> M) (train_from : P -> M -> D -> M) s,
-        fst (adv_step ws init_net train_from s Clone) = a_init (a_par s) /\
-        snd (adv_step ws init_net train_from s Clone) = mkObs true (a_par s) None None).
+    (forall (ws : P -> bool) (user_net : P -> option M) (init_net : P -> D -> M)
+            (train_from : P -> M -> D -> M) p h,
+        user_net p = None ->
+        fst (adv_step ws init_net train_from (run (adv_step ws init_net train_from) (a_init user_net p) h) Clone)
+          = a_init user_net p /\
+        snd (adv_step ws init_net train_from (run (adv_step ws init_net train_from) (a_init user_net p) h) Clone)
+          = mkObs true (p, None) None None).
 Proof. exact all_clone_fresh. Qed.
 Print Assumptions C19_clone_fresh.
 
@@ -234,8 +254,8 @@ Example C19_old_behaviours_refuted :
   o_exc (after (gs_step_old sym_train) (g_init 0) [Fit 1] (Fit 1)) = Some AssertionErr /\
   o_exc (after (eg_step_old sym_nu_of sym_train_eg) (e_init 0 None) [Fit 1; Clone] (Fit 1)) = Some AssertionErr /\
   o_self (after (gs_step_old sym_train) (g_init 0) [] (Fit 1)) = false /\
-  o_model (after (adv_step_old sym_ws sym_init_net sym_train_from) (a_init (0, false)) [Fit 1] (Fit 2))
-    <> o_model (after (adv_step_old sym_ws sym_init_net sym_train_from) (a_init (0, false)) [] (Fit 2)).
+  o_model (after (adv_step_old sym_ws sym_init_net sym_train_from) (a_init sym_user_net (0, (false, false))) [Fit 1] (Fit 2))
+    <> o_model (after (adv_step_old sym_ws sym_init_net sym_train_from) (a_init sym_user_net (0, (false, false))) [] (Fit 2)).
 Proof. repeat split; try reflexivity. vm_compute. intro H. discriminate H. Qed.
 
 (* non-vacuity: a non-trivial history on the free instance; the refit equals the fresh fit and is
